@@ -10,14 +10,14 @@ import (
 
 // Unit is one generator request of the C12 corpus.
 type Unit struct {
-	ID     string // also the last element of the Go package path
-	Label  string
-	Files  []*descriptorpb.FileDescriptorProto
-	Gen    []string // file_to_generate (nil = all of Files)
-	Param  string
-	Expect string   // "ok" | "error" (answered with an error message, no files) | "any" (response shape not judged beyond "no crash")
-	NoCompile bool  // the output is not a self-contained package (single-feature requests)
-	Want   []string // expected generated proto files (nil = Gen); others must produce no output
+	ID        string // also the last element of the Go package path
+	Label     string
+	Files     []*descriptorpb.FileDescriptorProto
+	Gen       []string // file_to_generate (nil = all of Files)
+	Param     string
+	Expect    string   // "ok" | "error" (answered with an error message, no files) | "any" (response shape not judged beyond "no crash")
+	NoCompile bool     // the output is not a self-contained package (single-feature requests)
+	Want      []string // expected generated proto files (nil = Gen); others must produce no output
 	// Parts lets a failing grouped unit be split into single-message units for attribution.
 	Parts []func() Unit
 }
